@@ -14,6 +14,7 @@ import (
 	"testing"
 
 	"golang.org/x/perf/benchfmt"
+	"golang.org/x/perf/benchmath"
 	"golang.org/x/perf/benchunit"
 	mc "golang.org/x/perf/internal/verifmc"
 	ref "golang.org/x/perf/internal/verifref"
@@ -161,7 +162,7 @@ func c04CheckUnit(e *c04Env, unit string, values []float64) (string, string) {
 			if um.GetBetter(asked) != 1 {
 				return "", fmt.Sprintf("GetBetter(%q) = %d after declaring better=higher for %q", asked, um.GetBetter(asked), declared)
 			}
-			if a := um.GetAssumption(asked); a == nil || a.(fmt.Stringer).String() != "exact" {
+			if a := um.GetAssumption(asked); a != benchmath.AssumeExact {
 				return "", fmt.Sprintf("GetAssumption(%q) is not exact after declaring assume=exact for %q", asked, declared)
 			}
 		}
@@ -302,8 +303,8 @@ func c04CheckAPI(unit string) string {
 func TestVerifC04(t *testing.T) {
 	c := mc.NewCheck("C04")
 	c.Assume("reference unit model internal/verifref/unit.go")
-	c04Units(c, mc.Pick(c, 4, 6))
-	c04API(c, mc.Pick(c, 4, 5))
+	c04Units(c, mc.Pick(c, 5, 6))
+	c04API(c, mc.Pick(c, 5, 6))
 	if code := c.Finish(); code != 0 {
 		os.Exit(code)
 	}
